@@ -236,3 +236,13 @@ def lifecycle_steps(ctx, rep, rid, only=None):
             ok = any(n.endswith('::' + w) or n.endswith(w) for n in names)
             rep.ob(rid, fn, 'calls ' + w, ok, None, None if ok else
                    '%s no longer calls %s: a step of the storage lifecycle was dropped (the effect shows at the next restart, purge or close)' % (fn.split('::')[-1], w))
+
+
+def segment_delete_files(ctx, rep, rid):
+    """a deleted segment leaves neither file behind (purge re-creates segment 0 at the same paths and the index writer
+    opens its file in append mode: a surviving index file puts the purged log's entries in front of the new ones)"""
+    got = [f for _, f, _ in forms.call_arg_forms(ctx, SEG + '::delete', 'remove_file', skip_self=False, cd=1)]
+    for want in ('self.log_path', 'self.index_path'):
+        ok = got.count(want) == 1
+        rep.ob(rid, SEG + '::delete', 'remove_file(%s)' % want, ok, None, None if ok else
+               'Segment::delete removes %s: `%s` is removed %d times — a file of the deleted segment survives and is reused when a segment is created at the same path' % (got, want, got.count(want)))
